@@ -262,7 +262,7 @@ def case_network(ctx, rng):
 
 
 def run(ctx):
-    for _, rng in ctx.cases("arrays", ctx.n(3000, 60000)):
+    for _, rng in ctx.cases("arrays", ctx.budget(12000, 250000)):
         ctx.run_case(case_array, ctx, rng)
-    for _, rng in ctx.cases("networks", ctx.n(2000, 40000)):
+    for _, rng in ctx.cases("networks", ctx.budget(6000, 120000)):
         ctx.run_case(case_network, ctx, rng)
